@@ -2,33 +2,58 @@
    Only statements here; proofs live in Proofs/C01.v.
 
    What is proved: coalesce, rewrite and the flattening pass shake_0 preserve the
-   three-valued result exactly (outside the two known classes of shake_0), for every rule of
-   evaluable shape and every document; the known classes are refuted on the faithful model
-   by explicit witnesses.  The merging pass shake_1 and the matrix pass are modelled and tied
-   to the crate by the correspondence check but their preservation theorems are not proved
-   yet (PARTIAL, see DESIGN.md 7-C01). *)
+   three-valued result exactly, for every document, on trees of the shape the loader
+   produces and outside the two known classes of shake_0 (D13 double negation, D14
+   singleton under a quantifier); the known classes are refuted on the faithful model by
+   explicit witnesses.  The first versions of three statements were FALSE for hand-built
+   trees the loader cannot produce (a nested block around all(identifier); empty groups;
+   comparisons whose operands are groups); the counterexamples are kept in Proofs/C01.v as
+   `*_refuted` lemmas and the statements below carry the shape hypotheses the proofs
+   needed:
+     no_nested   the condition has no nested block (the Pratt parser cannot build one);
+     cmp_leaves  comparison operands are leaves (all led_check ever builds);
+     sh0         the operand of a quantifier is a group without exactly one member, or a
+                 non-group that is not an and/or chain;
+     shx         no empty group; comparison operands are leaves; the body of a nested block
+                 is not a chain of one-member groups ending in all(or-group);
+     no_dneg     no Negate whose operand will shake to a Negate (class D13).
+   The merging pass shake_1 and the matrix pass are modelled and tied to the crate by the
+   correspondence check (all 16 switch sets, all hash orders) but their preservation
+   theorems are not proved (PARTIAL, see DESIGN.md 7-C01). *)
 From TauModel Require Import Base Num Oracles Syntax Value Solver Rule Keys Optimiser Known.
 From TauProofs Require C01.
 
-(* the one assumption about the regex library: a pattern that still compiles after a leading
-   / trailing `.*` was removed matches (unanchored) the same haystacks *)
 Definition H_strip (o : oracles) : Prop :=
   forall p ci h, re_valid o (strip_dotstar p) ci = true ->
                  re_match o (strip_dotstar p) ci h = re_match o p ci h.
-
 Definition ids_wf (ids : list (str * expr)) : Prop :=
   forall i b, lookup i ids = Some b -> wf_body b = true.
 
-(* coalesce: inlining the identifiers is exact *)
-Theorem coalesce_exact : forall o ids e d,
-  ids_wf ids -> wf_cond ids e = true ->
+Fixpoint no_nested (e : expr) : bool :=
+  match e with
+  | EGroup _ l => forallb no_nested l
+  | EBexp l _ r => no_nested l && no_nested r
+  | EMatch _ e' | ENegate e' => no_nested e'
+  | ENested _ _ => false
+  | _ => true
+  end.
+Fixpoint cmp_leaves (e : expr) : bool :=
+  match e with
+  | EGroup _ l => forallb cmp_leaves l
+  | EBexp l s r => if is_and_or s then cmp_leaves l && cmp_leaves r
+                   else negb (is_solvable l) && negb (is_solvable r)
+  | EMatch _ e' | ENegate e' | ENested _ e' => cmp_leaves e'
+  | _ => true
+  end.
+
+Theorem coalesce_exact_alt : forall o ids e d,
+  ids_wf ids -> wf_cond ids e = true -> no_nested e = true -> cmp_leaves e = true ->
   exists e', coalesce ids e = Ok e' /\ wf_body e' = true /\
              solve_body o e' d = solve_cond o ids e d.
-Proof. exact C01.coalesce_exact. Qed.
-Check coalesce_exact.
-Print Assumptions coalesce_exact.
+Proof. exact C01.coalesce_exact_alt. Qed.
+Check coalesce_exact_alt.
+Print Assumptions coalesce_exact_alt.
 
-(* rewrite: stripping `.*` is exact under H_strip, and never panics (fix D4) *)
 Theorem rewrite_exact : forall o ids e d,
   H_strip o ->
   solve_cond o (map (fun kv => (fst kv, rewrite o (snd kv))) ids) (rewrite o e) d =
@@ -37,27 +62,18 @@ Proof. exact C01.rewrite_exact. Qed.
 Check rewrite_exact.
 Print Assumptions rewrite_exact.
 
-(* shake_0: flattening and/or chains and unwrapping one-member groups is exact, for every
-   fuel, on trees of the shape the loader produces, outside the double-negation class D13
-   and the singleton-under-quantifier class D14.
-   sh0: the operand of a quantifier is a group that does not have exactly one member, or a
-        non-group that is not an and/or chain (the parser and coalesce only ever put
-        identifier bodies and key lists there);
-   no_dneg: no Negate whose operand will shake to a Negate (D13). *)
 Fixpoint head_neg (e : expr) : bool :=
   match e with
   | ENegate _ => true
   | EGroup _ [y] => head_neg y
   | _ => false
   end.
-
 Definition quant_operand_ok (e : expr) : bool :=
   match e with
   | EGroup _ [_] => false
   | EBexp _ BAnd _ | EBexp _ BOr _ => false
   | _ => true
   end.
-
 Fixpoint sh0 (e : expr) : bool :=
   match e with
   | EGroup _ l => forallb sh0 l
@@ -66,32 +82,45 @@ Fixpoint sh0 (e : expr) : bool :=
   | ENegate e' | ENested _ e' => sh0 e'
   | _ => true
   end.
-
 Definition no_dneg (e : expr) : bool :=
   negb (exists_sub (fun _ x => match x with ENegate y => head_neg y | _ => false end) false e).
+Fixpoint head_allor (e : expr) : bool :=
+  match e with
+  | EMatch MAll (EGroup BOr _) => true
+  | EGroup _ [y] => head_allor y
+  | _ => false
+  end.
+Definition nested_ok (e : expr) : bool :=
+  match e with EGroup _ _ => negb (head_allor e) | _ => true end.
+Fixpoint shx (e : expr) : bool :=
+  match e with
+  | EGroup _ l => match l with [] => false | _ => forallb shx l end
+  | EBexp l s r => if is_and_or s then shx l && shx r
+                   else negb (is_solvable l) && negb (is_solvable r)
+  | EMatch _ e' | ENegate e' => shx e'
+  | ENested _ e' => nested_ok e' && shx e'
+  | _ => true
+  end.
 
-Theorem shake0_exact : forall o fuel e e' d,
-  wf_body e = true -> sh0 e = true -> no_dneg e = true ->
+Theorem shake0_exact_alt : forall o fuel e e' d,
+  wf_body e = true -> sh0 e = true -> no_dneg e = true -> shx e = true ->
   shake0 fuel e = Ok e' ->
   solve_body o e' d = solve_body o e d.
-Proof. exact C01.shake0_exact. Qed.
-Check shake0_exact.
-Print Assumptions shake0_exact.
+Proof. exact C01.shake0_exact_alt. Qed.
+Check shake0_exact_alt.
+Print Assumptions shake0_exact_alt.
 
-(* whole rules, switch sets that use coalesce and rewrite only: the optimised rule returns
-   exactly the result of the unoptimised rule, and optimise does not panic *)
-Theorem optimise_coalesce_rewrite_exact : forall o ord sw r d,
+Theorem optimise_coalesce_rewrite_exact_alt : forall o ord sw r d,
   H_strip o ->
   sw_shake sw = false -> sw_matrix sw = false ->
   wf_det (r_det r) = true -> r_optimised r = false ->
+  no_nested (d_expr (r_det r)) = true -> cmp_leaves (d_expr (r_det r)) = true ->
   exists r', optimise o ord sw r = Ok r' /\
              solve_rule3 o (r_det r') d = solve_rule3 o (r_det r) d.
-Proof. exact C01.optimise_coalesce_rewrite_exact. Qed.
-Check optimise_coalesce_rewrite_exact.
-Print Assumptions optimise_coalesce_rewrite_exact.
+Proof. exact C01.optimise_coalesce_rewrite_exact_alt. Qed.
+Check optimise_coalesce_rewrite_exact_alt.
+Print Assumptions optimise_coalesce_rewrite_exact_alt.
 
-(* exact preservation implies verdict preservation in every context (polarity argument:
-   an exact equality survives negation and none-of) *)
 Theorem exact_implies_verdict : forall o dt dt' (d : doc),
   solve_rule3 o dt' (pure_doc d) = solve_rule3 o dt (pure_doc d) ->
   forall r r', r_det r = dt -> r_det r' = dt' -> matches o r' d = matches o r d.
@@ -99,7 +128,6 @@ Proof. exact C01.exact_implies_verdict. Qed.
 Check exact_implies_verdict.
 Print Assumptions exact_implies_verdict.
 
-(* ---- the known classes are real: refutations on the model ---- *)
 Definition o0 : oracles :=
   {| re_valid := fun _ _ => true; re_match := fun _ _ _ => false; f64_parse := fun _ => None;
      f64_show := fun _ => []; uni_alnum := fun _ => false; uni_num := fun _ => false |}.
@@ -110,7 +138,6 @@ Definition sw_coalesce_shake : switches :=
 Definition mk_rule (e : expr) (ids : list (str * expr)) : rule :=
   {| r_optimised := false; r_det := {| d_expr := e; d_ids := ids |}; r_tp := []; r_tn := [] |}.
 
-(* D13: `not not A` on a document without the field *)
 Example refuted_D13 :
   let r := mk_rule (ENegate (ENegate (EIdent [65%N]))) [([65%N], ESearch (SExact [120%N]) [102%N] false)] in
   let d : doc := fun _ => None in
@@ -118,8 +145,6 @@ Example refuted_D13 :
   exists r', optimise o0 (fun k => k) sw_only_shake r = Ok r' /\ matches o0 r' d = Ok false.
 Proof. exact C01.refuted_D13. Qed.
 Check refuted_D13.
-
-(* D14: of(X, 2) over a one-entry identifier whose entry is a two-needle list *)
 Example refuted_D14 :
   let body := EGroup BOr [ESearch (SAho [MTContains [97%N]; MTContains [98%N]] false) [102%N] false] in
   let r := mk_rule (EMatch (MOf 2) (EIdent [88%N])) [([88%N], body)] in
@@ -128,9 +153,6 @@ Example refuted_D14 :
   exists r', optimise o0 (fun k => k) sw_coalesce_shake r = Ok r' /\ matches o0 r' d = Ok true.
 Proof. exact C01.refuted_D14. Qed.
 Check refuted_D14.
-
-(* D16: two nested blocks of an and-group under `not`; the outcome depends on the order the
-   hash map yields the keys *)
 Example refuted_D16 :
   let body := EGroup BAnd [ENested [120%N] (EBexp (EField [97%N]) BEqual (EInt 1));
                            ENested [121%N] (EBexp (EField [98%N]) BEqual (EInt 2))] in
@@ -141,3 +163,10 @@ Example refuted_D16 :
   (exists r', optimise o0 (@rev key) sw_only_shake r = Ok r' /\ matches o0 r' d = Ok false).
 Proof. exact C01.refuted_D16. Qed.
 Check refuted_D16.
+
+(* the counterexamples that forced the shape hypotheses (hand-built trees the loader cannot
+   produce) *)
+Definition coalesce_exact_counterexample := C01.coalesce_exact_refuted.
+Definition shake0_exact_counterexample_nested := C01.shake0_exact_refuted_nested.
+Definition shake0_exact_counterexample_empty_group := C01.shake0_exact_refuted_empty_group.
+Definition shake0_exact_counterexample_cmp_operand := C01.shake0_exact_refuted_cmp_operand.
